@@ -8,10 +8,24 @@ def base_shapes(n, continuous=False, max_arity=None):
     return model.shapes(n, continuous=continuous, max_arity=max_arity)
 
 
-def shape_chunks(specs, per_chunk=40, **extra):
+def shape_chunks(specs, per_chunk=40, big=False, **extra):
     """specs: list of (n, max_unary[, continuous[, max_arity]]).  Returns chunk dicts that
-    partition the base shapes; unary variants are generated inside the chunk."""
+    partition the base shapes; unary variants are generated inside the chunk.
+    big=True appends one chunk per size probe of model.big_shapes() (11-13 tokens, outside the bound),
+    filtered like the last spec."""
     chunks = []
+    if big and specs:
+        last = specs[-1]
+        cont = last[2] if len(last) > 2 else False
+        ar = last[3] if len(last) > 3 else None
+        for i in range(len(model.big_shapes(True if cont else None, ar))):
+            c = {'n': 12, 'u': 0, 'lo': i, 'hi': i + 1, 'big': True}
+            if cont:
+                c['cont'] = True
+            if ar:
+                c['ar'] = ar
+            c.update(extra)
+            chunks.append(c)
     for spec in specs:
         n, u = spec[0], spec[1]
         cont = spec[2] if len(spec) > 2 else False
@@ -32,6 +46,10 @@ def shape_chunks(specs, per_chunk=40, **extra):
 
 def iter_shapes(chunk):
     """Yield (shape, n_unary) for a chunk produced by shape_chunks."""
+    if chunk.get('big'):
+        for sh in model.big_shapes(True if chunk.get('cont') else None, chunk.get('ar'))[chunk['lo']:chunk['hi']]:
+            yield sh, 0
+        return
     base = base_shapes(chunk['n'], chunk.get('cont', False), chunk.get('ar'))
     for sh in base[chunk['lo']:chunk['hi']]:
         for k in range(chunk['u'] + 1):
